@@ -531,3 +531,45 @@ def name_pred(names=(), regex=None):
             return True
         return bool(rx and rx.search(n))
     return pred
+
+
+def zero_count_edges(fn, callee_names):
+    """Edges taken when the count returned by one of `callee_names` (e.g. Table::delete_where) is zero:
+    `if n > 0 {..}` / `if n != 0 {..}` / `if n == 0 {..}` — on them the call changed nothing."""
+    from .cfg import op_place, op_const
+    out = set()
+    counts = set()
+    for i, t in fn.calls():
+        if callee_name(t) in callee_names and not t['d'][1]:
+            counts.add(t['d'][0])
+    if not counts:
+        return out
+    changed = True
+    while changed:
+        changed = False
+        for b in fn.blocks:
+            for s_ in b['s']:
+                if 'd' in s_ and s_['v']['r'] == 'use' and not s_['d'][1]:
+                    p_ = op_place(s_['v']['a'])
+                    if p_ and not p_[1] and p_[0] in counts and s_['d'][0] not in counts:
+                        counts.add(s_['d'][0]); changed = True
+    for i, b in enumerate(fn.blocks):
+        t = b['t']
+        if t['k'] != 'switch':
+            continue
+        on = op_place(t['on'])
+        if on is None:
+            continue
+        for s_ in b['s']:
+            if 'd' in s_ and s_['d'][0] == on[0] and s_['v']['r'] == 'bin' and s_['v']['op'] in ('Gt', 'Ne', 'Eq', 'Lt', 'Ge'):
+                pa, pb = op_place(s_['v']['a']), op_place(s_['v']['b'])
+                ca, cb = op_const(s_['v']['a']), op_const(s_['v']['b'])
+                op = s_['v']['op']
+                if pa and pa[0] in counts and cb == 0:
+                    if op in ('Gt', 'Ne'):
+                        out.add((i, switch_target(t, 0)))      # n > 0 is false  => n == 0
+                    elif op == 'Eq':
+                        out.add((i, switch_target(t, 1)))      # n == 0 is true
+                elif pb and pb[0] in counts and ca == 0 and op == 'Lt':
+                    out.add((i, switch_target(t, 0)))          # 0 < n is false
+    return out
